@@ -52,6 +52,12 @@ def run_seed(seed, repo="/repo"):
         rep = Report(seed["prop"])
         mod = importlib.import_module("rules.%s" % seed["prop"].lower())
         mod.run(rep, db, "quick")
+        # the same pipeline as ./check: dependency closure and the generic hidden-state / dead-store rules
+        if not os.environ.get("VERIF_NO_DEPS"):
+            from rules import deps
+            deps.run(seed["prop"], rep, db)
+        from rules import state
+        state.run(seed["prop"], rep, db)
         viol = rep.violations()
         from rules.report import load_known
         known, _ = load_known()
